@@ -280,3 +280,13 @@ package server
 //@ func newPathFromIPRouteMessage
 //@   claims at-call
 //@   at-call bgp.NewPathAttributeNextHop( requires arg0.IsValid()
+
+// =============================================================================================
+// C16 - RPKI: the ROA table holds what the caches announced and did not withdraw
+// =============================================================================================
+//@ props C16
+// one lifetime timer per cache: a timer that is armed is stopped before another one takes its place - a leaked timer
+// fires while the session is up and synchronised and deletes every record of the cache
+//@ func (*roaManager).HandleROAEvent
+//@   claims at-call
+//@   at-call time.AfterFunc( requires client.timer == nil || called(Stop)
